@@ -115,12 +115,18 @@ class StreamingDetector(ABC):
             y_true (numpy.ndarray): if applicable, one true label from input data
             y_pred (numpy.ndarray): if applicable, one predicted label from input data
         """
-        if X is not None:
-            X = self._validate_X(X)
-        if y_true is not None:
-            y_true = self._validate_y(y_true)
-        if y_pred is not None:
-            y_pred = self._validate_y(y_pred)
+        prior = (self._input_cols, self._input_col_dim)
+        try:
+            if X is not None:
+                X = self._validate_X(X)
+            if y_true is not None:
+                y_true = self._validate_y(y_true)
+            if y_pred is not None:
+                y_pred = self._validate_y(y_pred)
+        except ValueError:
+            # a rejected input must not constrain later input
+            self._input_cols, self._input_col_dim = prior
+            raise
         return X, y_true, y_pred
 
     @property
@@ -298,12 +304,18 @@ class BatchDetector(ABC):
             y_true (numpy.ndarray): if applicable, true labels of input data
             y_pred (numpy.ndarray): if applicable, predicted labels of input data
         """
-        if X is not None:
-            X = self._validate_X(X)
-        if y_true is not None:
-            y_true = self._validate_y(y_true)
-        if y_pred is not None:
-            y_pred = self._validate_y(y_pred)
+        prior = (self._input_cols, self._input_col_dim)
+        try:
+            if X is not None:
+                X = self._validate_X(X)
+            if y_true is not None:
+                y_true = self._validate_y(y_true)
+            if y_pred is not None:
+                y_pred = self._validate_y(y_pred)
+        except ValueError:
+            # a rejected input must not constrain later input
+            self._input_cols, self._input_col_dim = prior
+            raise
         return X, y_true, y_pred
 
     @property
